@@ -632,6 +632,8 @@ class KnownDirectivesChecker(ValidationVisitor):
 
     enter_operation_definition = _enter_ancestor
     leave_operation_definition = _leave_ancestor
+    enter_variable_definition = _enter_ancestor
+    leave_variable_definition = _leave_ancestor
     enter_field = _enter_ancestor
     leave_field = _leave_ancestor
     enter_field = _enter_ancestor
@@ -696,6 +698,7 @@ class KnownDirectivesChecker(ValidationVisitor):
             )
 
         return {
+            _ast.VariableDefinition: "VARIABLE_DEFINITION",
             _ast.Field: "FIELD",
             _ast.FragmentSpread: "FRAGMENT_SPREAD",
             _ast.InlineFragment: "INLINE_FRAGMENT",
@@ -747,6 +750,7 @@ class UniqueDirectivesPerLocationChecker(ValidationVisitor):
             seen.add(name)
 
     enter_operation_definition = _validate_unique_directive_names
+    enter_variable_definition = _validate_unique_directive_names
     enter_field = _validate_unique_directive_names
     enter_field = _validate_unique_directive_names
     enter_fragment_spread = _validate_unique_directive_names
